@@ -71,6 +71,7 @@ def plan(tier, seed):
     units += [("unesc", tier, u[2]) for u in UNESC_FAM.units(tier)] + [("unesc256",)]
     units += [("u16", tier, u[2]) for u in U16_FAM.units(tier)] + [("u16all",)]
     units += [("stream", u) for u in streams.plan(tier, fams=STREAM_FAMS)]
+    units += core.interp_axis([("unesc256",), ("u16all",), ("xmlfull", 0, 16), ("chr", 0, 64)])
     return units
 
 
